@@ -129,38 +129,15 @@ func ToCommandLine(wf WireFormat, resolveIds bool) (rule string, err error) {
 		existingFields[fieldID] = idx
 	}
 
-	// Detect if rule is a watch.
-	// Must have all syscalls and perm field. Only other valid fields are
-	// dir, path and key, according to auditctl source
-	if permIdx, ok := existingFields[permField]; r.allSyscalls && ok {
-		extraFields, pos := false, 0
-		var path, key string
-	loop:
-		for _, fieldID := range r.fields {
-			switch fieldID {
-			case keyField, pathField, dirField:
-				if pos >= len(r.strings) {
-					return "", fmt.Errorf("no buffer data for path field %d", fieldID)
-				}
-				if fieldID == keyField {
-					key = r.strings[pos]
-				} else {
-					path = r.strings[pos]
-				}
-				pos++
-			case permField:
-			default:
-				extraFields = true
-				break loop
-			}
+	// Detect if rule is a watch. Only a rule that is exactly what -w builds
+	// is printed in the -w form, otherwise the text would not mean the same
+	// rule when parsed again.
+	if r.isFileWatch() {
+		arguments := []string{"-w", r.strings[0], "-p", permission(r.values[1]).String()}
+		if len(r.strings) > 1 {
+			arguments = append(arguments, "-k", r.strings[1])
 		}
-		if !extraFields {
-			arguments := []string{"-w", path, "-p", permission(r.values[permIdx]).String()}
-			if len(key) > 0 {
-				arguments = append(arguments, "-k", key)
-			}
-			return strings.Join(arguments, " "), nil
-		}
+		return strings.Join(arguments, " "), nil
 	}
 
 	// Parse rule as syscall type
@@ -322,6 +299,35 @@ func ToCommandLine(wf WireFormat, resolveIds bool) (rule string, err error) {
 	}
 
 	return strings.Join(arguments, " "), nil
+}
+
+// isFileWatch returns true if the rule has the exact shape of a rule built by
+// addFileWatch: always,exit for all syscalls with a path (or dir) field, a perm
+// field and optionally a key, in that order and all compared with '='.
+func (r *ruleData) isFileWatch() bool {
+	if !r.allSyscalls || r.flags != exitFilter || r.action != alwaysAction {
+		return false
+	}
+	if len(r.fields) < 2 || len(r.fields) > 3 || len(r.strings) != len(r.fields)-1 {
+		return false
+	}
+	if r.fields[0] != pathField && r.fields[0] != dirField {
+		return false
+	}
+	if r.fields[1] != permField || r.values[1] == 0 {
+		return false
+	}
+	if len(r.fields) == 3 && (r.fields[2] != keyField || strings.Contains(r.strings[1], ",")) {
+		// The -k flag splits its value on commas.
+		return false
+	}
+	for _, op := range r.fieldFlags {
+		if op != equalOperator {
+			return false
+		}
+	}
+	// -w cleans the path.
+	return filepath.IsAbs(r.strings[0]) && filepath.Clean(r.strings[0]) == r.strings[0]
 }
 
 func addFileWatch(data *ruleData, rule *FileWatchRule) error {
